@@ -8,20 +8,20 @@
    without time limit), any number of shutdown callers (wait=True / wait=False) and
    EVERY schedule (label list) the transition system admits. *)
 From Coq Require Import List Arith Bool.
-From HV Require Import Spec.ExecSpec Gen.GenSolveLow Model.ExecModel Proofs.ExecProofs.
+From HV Require Import Spec.ExecSpec Gen.GenSolveLow Gen.GenCancel Model.ExecModel Proofs.ExecProofs.
 Import ListNotations.
 
 (* a job's result or exception is delivered at most once, on every schedule *)
 Theorem C17_at_most_once :
-  forall tmos waits sched st j,
-    run (init tmos waits) sched = Some st -> deliveries j sched <= 1.
+  forall cfgs waits sched st j,
+    run (init cfgs waits) sched = Some st -> deliveries j sched <= 1.
 Proof. exact at_most_once. Qed.
 Print Assumptions C17_at_most_once.
 
 (* same, on the state: set_result is never called twice on a future *)
 Theorem C17_set_result_once :
-  forall tmos waits sched st j jb,
-    run (init tmos waits) sched = Some st -> nth_error (jobs st) j = Some jb -> sets jb <= 1.
+  forall cfgs waits sched st j jb,
+    run (init cfgs waits) sched = Some st -> nth_error (jobs st) j = Some jb -> sets jb <= 1.
 Proof. exact sets_at_most_once. Qed.
 Print Assumptions C17_set_result_once.
 
@@ -30,8 +30,8 @@ Print Assumptions C17_set_result_once.
    solve_low_level derives from the future, delivered exactly once, and no process of it
    runs; every shutdown() call has returned *)
 Theorem C17_exactly_once_quiescent :
-  forall tmos waits sched st,
-    run (init tmos waits) sched = Some st -> (forall l, step st l = None) ->
+  forall cfgs waits sched st,
+    run (init cfgs waits) sched = Some st -> (forall l, step st l = None) ->
     (forall j jb, nth_error (jobs st) j = Some jb ->
        (spc jb = SRejected /\ wpc jb = WNew /\ deliveries j sched = 0 /\ proc jb = PNone) \/
        (spc jb = SGot (low_level jb) /\ wpc jb = WDone /\ deliveries j sched = 1 /\ proc jb <> PRun)) /\
@@ -42,8 +42,8 @@ Print Assumptions C17_exactly_once_quiescent.
 (* deadlock-freedom: in every reachable state in which some submitter has neither been
    rejected nor obtained its result, or some shutdown() call has not ended, a label is enabled *)
 Theorem C17_no_deadlock :
-  forall tmos waits sched st,
-    run (init tmos waits) sched = Some st ->
+  forall cfgs waits sched st,
+    run (init cfgs waits) sched = Some st ->
     (exists j jb, nth_error (jobs st) j = Some jb /\ spc jb <> SRejected /\ (forall v, spc jb <> SGot v)) \/
     (exists k s, nth_error (sds st) k = Some s /\ dpc s <> DDone) ->
     exists l st', step st l = Some st'.
@@ -54,10 +54,10 @@ Print Assumptions C17_no_deadlock.
    finite, C17_schedules_bounded, so every maximal schedule is such an extension); there every
    waiter has returned with exactly one delivery *)
 Theorem C17_wait_returns :
-  forall tmos waits sched st,
-    run (init tmos waits) sched = Some st ->
+  forall cfgs waits sched st,
+    run (init cfgs waits) sched = Some st ->
     exists ext st',
-      run (init tmos waits) (sched ++ ext) = Some st' /\ (forall l, step st' l = None) /\
+      run (init cfgs waits) (sched ++ ext) = Some st' /\ (forall l, step st' l = None) /\
       (forall j jb, nth_error (jobs st') j = Some jb ->
          (spc jb = SRejected /\ deliveries j (sched ++ ext) = 0) \/
          (spc jb = SGot (low_level jb) /\ deliveries j (sched ++ ext) = 1)) /\
@@ -68,8 +68,8 @@ Print Assumptions C17_wait_returns.
 (* a job that exceeded its time limit carries TimeoutExpired, and what its waiter
    (solve_low_level) reports is unknown -- never unsat *)
 Theorem C17_timeout_unknown :
-  forall tmos waits sched st j jb,
-    run (init tmos waits) sched = Some st -> timed_out j sched ->
+  forall cfgs waits sched st j jb,
+    run (init cfgs waits) sched = Some st -> timed_out j sched ->
     nth_error (jobs st) j = Some jb ->
     exc jb = Some ETimeout /\
     forall v, spc jb = SGot v -> v = spec_timeout_verdict /\ v <> VUnsat.
@@ -84,9 +84,9 @@ Proof. exact step_rank. Qed.
 Print Assumptions C17_every_step_decreases_rank.
 
 Theorem C17_schedules_bounded :
-  forall tmos waits sched st,
-    run (init tmos waits) sched = Some st ->
-    length sched <= 17 * length tmos + (6 + length tmos) * length waits.
+  forall cfgs waits sched st,
+    run (init cfgs waits) sched = Some st ->
+    length sched <= 17 * length cfgs + (6 + length cfgs) * length waits.
 Proof. exact schedules_bounded. Qed.
 Print Assumptions C17_schedules_bounded.
 
@@ -94,16 +94,16 @@ Print Assumptions C17_schedules_bounded.
    2f54d38): on every schedule, no job is accepted (its worker started) after any shutdown()
    call, of either kind, has returned *)
 Theorem C17_no_accept_after_shutdown :
-  forall tmos waits sched st,
-    run (init tmos waits) sched = Some st -> ~ accepted_after_return sched.
+  forall cfgs waits sched st,
+    run (init cfgs waits) sched = Some st -> ~ accepted_after_return sched.
 Proof. exact no_accept_after_shutdown. Qed.
 Print Assumptions C17_no_accept_after_shutdown.
 
 (* stronger: once a shutdown() call has taken the executor lock, no job is registered or
    accepted any more (so the snapshot that call takes under the lock is the final registry) *)
 Theorem C17_no_accept_after_shutdown_lock :
-  forall tmos waits pre l post st k,
-    run (init tmos waits) (pre ++ l :: post) = Some st -> In (LSdAcquire k) pre ->
+  forall cfgs waits pre l post st k,
+    run (init cfgs waits) (pre ++ l :: post) = Some st -> In (LSdAcquire k) pre ->
     forall j, l <> LSubAppend j /\ l <> LSubStart j.
 Proof. exact no_accept_after_lock. Qed.
 Print Assumptions C17_no_accept_after_shutdown_lock.
@@ -113,24 +113,24 @@ Print Assumptions C17_no_accept_after_shutdown_lock.
    returned, NO solver process runs, and every job that was ever accepted has been delivered,
    exactly once -- whatever happened to the jobs (timeout, Popen failure, cancel) *)
 Theorem C17_wait_shutdown_complete :
-  forall tmos waits sched st k,
-    run (init tmos waits) sched = Some st -> nth_error waits k = Some true -> returned st k = true ->
+  forall cfgs waits sched st k,
+    run (init cfgs waits) sched = Some st -> nth_error waits k = Some true -> returned st k = true ->
     forall j, running st j = false /\ (accepted j sched -> deliveries j sched = 1).
 Proof. exact wait_shutdown_complete. Qed.
 Print Assumptions C17_wait_shutdown_complete.
 
 (* shutdown() never terminates with an exception (of a job) *)
 Theorem C17_shutdown_never_raises :
-  forall tmos waits sched st k,
-    run (init tmos waits) sched = Some st -> ~ shutdown_raised k sched.
+  forall cfgs waits sched st k,
+    run (init cfgs waits) sched = Some st -> ~ shutdown_raised k sched.
 Proof. exact shutdown_never_raises. Qed.
 Print Assumptions C17_shutdown_never_raises.
 
 (* cancel(): a solver process that existed when a cancel task for its job ran is dead from then
    on (any number of shutdown callers, any order of their cancel tasks) *)
 Theorem C17_cancel_kills_spawned :
-  forall tmos waits sched st j,
-    run (init tmos waits) sched = Some st -> cancelled_while_spawned j sched -> running st j = false.
+  forall cfgs waits sched st j,
+    run (init cfgs waits) sched = Some st -> cancelled_while_spawned j sched -> running st j = false.
 Proof. exact cancel_kills. Qed.
 Print Assumptions C17_cancel_kills_spawned.
 
@@ -138,8 +138,8 @@ Print Assumptions C17_cancel_kills_spawned.
    existed when a shutdown() call (either kind, any number of concurrent callers) took the
    lock is dead when that call has returned *)
 Theorem C17_shutdown_kills_spawned :
-  forall tmos waits sched st k j,
-    run (init tmos waits) sched = Some st -> spawned_before_acquire k j sched ->
+  forall cfgs waits sched st k j,
+    run (init cfgs waits) sched = Some st -> spawned_before_acquire k j sched ->
     returned st k = true -> running st j = false.
 Proof. exact shutdown_kills_spawned. Qed.
 Print Assumptions C17_shutdown_kills_spawned.
@@ -148,8 +148,8 @@ Print Assumptions C17_shutdown_kills_spawned.
    has returned, then a cancel task of that call did run for the job, and the process was
    spawned only after it (the F6 window below) *)
 Theorem C17_nowait_shutdown_only_late_spawn :
-  forall tmos waits sched st k j,
-    run (init tmos waits) sched = Some st -> nth_error waits k = Some false ->
+  forall cfgs waits sched st k j,
+    run (init cfgs waits) sched = Some st -> nth_error waits k = Some false ->
     returned st k = true -> running st j = true ->
     exists pre mid post, sched = pre ++ LSdCancel k j :: mid ++ LPopen j true :: post.
 Proof. exact nowait_only_late_spawn. Qed.
@@ -160,13 +160,38 @@ Print Assumptions C17_nowait_shutdown_only_late_spawn.
    process is spawned after shutdown(wait=False) has returned (without any late acceptance)
    and is running in the final state *)
 Theorem C17_no_process_after_shutdown_refuted :
-  exists tmos waits sched st k j,
-    run (init tmos waits) sched = Some st /\ ~ accepted_after_return sched /\
+  exists cfgs waits sched st k j,
+    run (init cfgs waits) sched = Some st /\ ~ accepted_after_return sched /\
     spawned_after_return sched /\ returned st k = true /\ running st j = true.
 Proof. exact no_process_after_shutdown_refuted. Qed.
 Print Assumptions C17_no_process_after_shutdown_refuted.
 
-(* non-vacuity: a complete run of a job with a time limit that times out, a job that is killed
+(* cancel(): the kill escalation SIGTERM -> grace period -> SIGKILL.  The exception that the
+   grace-period wait raises for a process that ignored SIGTERM (a fact of the library the wait
+   is called on) is suppressed on the spot by the list regenerated from processes.py, so ... *)
+Theorem C17_grace_wait_exception_suppressed :
+  catches gen_cancel_suppressed (wait_timeout_exn gen_grace_receiver) = true.
+Proof. exact grace_suppressed_true. Qed.
+Print Assumptions C17_grace_wait_exception_suppressed.
+
+(* ... cancel() never terminates with an exception (it cannot take the worker's finally block
+   past set_result, nor leave a cancel task half done), for every job, stubborn or not, *)
+Theorem C17_cancel_never_raises : forall jb, kill_raises jb = false.
+Proof. exact kill_raises_false. Qed.
+Print Assumptions C17_cancel_never_raises.
+
+(* ... and a running process is dead after cancel() whether or not it ignores SIGTERM *)
+Theorem C17_cancel_kills_also_stubborn : forall jb, proc jb = PRun -> proc (kill jb) = PDead.
+Proof. exact kill_kills. Qed.
+Print Assumptions C17_cancel_kills_also_stubborn.
+
+(* run(): the exception communicate() raises at the time limit is caught and stored *)
+Theorem C17_timeout_exception_stored : catches gen_run_handlers communicate_timeout_exn = true.
+Proof. exact timeout_caught_true. Qed.
+Print Assumptions C17_timeout_exception_stored.
+
+(* non-vacuity: a complete run of a job with a time limit that times out (its process ignores
+   SIGTERM), a job (ignoring SIGTERM too) that is killed
    by a shutdown(wait=False) issued while a shutdown(wait=True) is waiting, and a job that is
    rejected under the lock: delivered exactly once, reported unknown / error, quiescent *)
 Example C17_nonvacuous :
@@ -178,7 +203,7 @@ Example C17_nonvacuous :
                 LSdSet 0; LSdAcquire 0; LSdCancel 0 1; LSdCancel 0 0; LSdReturn 0;
                 LCommExc 1; LFinally 1; LSetResult 1; LSdJoin 1; LSdReturn 1;
                 LSubWait 0; LSubWait 1] in
-  exists st, run (init [true; false; false] [false; true]) sched = Some st /\
+  exists st, run (init [(true, true); (false, true); (false, false)] [false; true]) sched = Some st /\
     deliveries 0 sched = 1 /\ timed_out 0 sched /\ quiescentb st = true /\
     cancelled_while_spawned 1 sched /\ spawned_before_acquire 0 1 sched /\
     returned st 0 = true /\ returned st 1 = true /\
